@@ -478,6 +478,28 @@ func c06Specs(tier string) []*h.SeqSpec {
 					}
 					return nil
 				}})
+				// what a removal of the empty repository leaves when it is interrupted after index.json went: a directory that
+				// holds nothing but oci-layout. Once a request has named it, every pass meets a repository whose index cannot be
+				// loaded - and still has to finish the removal ("removes repositories left empty when so configured")
+				ops = append(ops, h.Op{Name: "q on disk holds only oci-layout (interrupted removal), then a request names it", Do: func(w *h.World) []h.Violation {
+					if _, used := regM(w).Repos["q"]; used {
+						return nil
+					}
+					d := filepath.Join(w.Dir, "q")
+					if _, err := os.Stat(d); err == nil {
+						return nil
+					}
+					_ = os.MkdirAll(d, 0o755)
+					_ = os.WriteFile(filepath.Join(d, "oci-layout"), []byte(`{"imageLayoutVersion":"1.0.0"}`), 0o644)
+					t := vrt.Now()
+					_ = os.Chtimes(filepath.Join(d, "oci-layout"), t, t)
+					_ = os.Chtimes(d, t, t)
+					w.Tags("q", "")
+					m := regM(w).Repo("q")
+					m.Limbo["*broken"] = true
+					m.Limbo["*remains"] = true
+					return nil
+				}})
 				ops = append(ops, h.Op{Name: "remove q from disk", Do: func(w *h.World) []h.Violation {
 					_ = os.RemoveAll(filepath.Join(w.Dir, "q"))
 					regM(w).Repo("q").Limbo["*broken"] = true
@@ -523,6 +545,23 @@ func c06Specs(tier string) []*h.SeqSpec {
 						vs = append(vs, ev...)
 						vs = append(vs, c06Layout(w, r, pol)...)
 					}
+					remainsUntouched := false
+					for _, n := range w.Hist {
+						if strings.HasPrefix(n, "q on disk holds only oci-layout") {
+							remainsUntouched = true
+						} else if strings.HasSuffix(n, " to q") || strings.Contains(n, "index.json of q") || strings.HasPrefix(n, "remove q") {
+							remainsUntouched = false // a later push makes it an ordinary repository again
+						}
+					}
+					if m := regM(w).Repos["q"]; m != nil && m.Limbo["*remains"] && remainsUntouched && pol.EmptyRepo && store == "dir" {
+						if ents, err := os.ReadDir(filepath.Join(w.Dir, "q")); err == nil {
+							var names []string
+							for _, e := range ents {
+								names = append(names, e.Name())
+							}
+							vs = append(vs, h.V("empty-repo-removed", "remains-of-an-interrupted-removal-left", "repository q held only oci-layout (a removal interrupted after index.json) and was named by a request; after a regular pass and a second pass its directory is still there: %v", names))
+						}
+					}
 					var healthy []string
 					for _, r := range repos3 {
 						if !regM(w).Repo(r).Limbo["*broken"] {
@@ -561,7 +600,7 @@ func init() {
 		Level: "model_checking",
 		Rule: "part A: breadth-first search over all histories (bounded depth) of complete pushes (tagged / untagged images, index, referrers of tagged, untagged, dangling-blob and never-existing subjects, referrer of a referrer, dangling blob), tag and digest deletes and a 'settle' operation (clock past the grace period, one regular tick through the real gcTicker, then a second tick) for the five policy combinations whose meaning TestGarbageCollect pins x grace disabled / 1 h x tick period; " +
 			"after the regular pass exactly the model's retained set is served, no index entry lacks its blob, an empty repository is removed, and the second pass changes nothing. " +
-			"part B: three repositories (p, p/n, q) that are healthy, looked up but never written, corrupted or removed from disk, collected in every one of the 6 visit orders (map-iteration seam): every healthy repository must reach the result it reaches alone; non-trivial = content present",
+			"part B: three repositories (p, p/n, q) that are healthy, looked up but never written, corrupted, removed from disk or reduced to the remains of an interrupted removal (must be removed), collected in every one of the 6 visit orders (map-iteration seam): every healthy repository must reach the result it reaches alone; non-trivial = content present",
 		Assume: []string{"exactness is demanded for (Untagged,Dangling,WithSubj) in {FFF,FFT,TFT,TTF,TTT} only, with the rules the repository's own table pins", "ticks are regular (the virtual ticker fires at every multiple of the period)"},
 		Specs:  c06Specs,
 		Budget: func(tier string) time.Duration {
